@@ -107,6 +107,16 @@ BREAKING = {
                       sub("src/stream_dispatch.rs", "        let result = ProcessIncomingMessageResult {\n            on_ack_result: self\n                .user_tx_segments", "        let previously_seen_remote_fin = self.state.is_remote_fin_or_later();\n\n        let result = ProcessIncomingMessageResult {\n            on_ack_result: self\n                .user_tx_segments")(root)]),
     "rto-step-no-backoff": (["C06"], ["rto.retransmission_backs_off"],
         sub("src/stream_dispatch.rs", "                            .on_retransmission_timeout(self.this_poll.now);\n                        self.rtte.on_rto_timeout();\n                        self.recovery.on_rto_timeout(self.last_sent_seq_nr);\n                    }\n\n                    // Restart the timer.", "                            .on_retransmission_timeout(self.this_poll.now);\n                        self.recovery.on_rto_timeout(self.last_sent_seq_nr);\n                    }\n\n                    // Restart the timer.")),
+    "sockd-limit-off-by-one": (["C12"], ["sockd."],
+        sub("src/socket.rs", "        self.streams.len() >= self.socket.opts.max_active_streams.get()", "        self.streams.len() > self.socket.opts.max_active_streams.get()")),
+    "sockd-unmatched-syn-to-the-back": (["C13"], ["sockd.cleanup.backlog_is_served_in_arrival_order", "sockd.cleanup.inv"],
+        sub("src/socket.rs", """                MatchSynWithAccept::ReceiverDead(syn) => {
+                    self.accept_queue.syns.push_front(syn);
+                }""", """                MatchSynWithAccept::ReceiverDead(syn) => {
+                    self.accept_queue.syns.push_back(syn);
+                }""")),
+    "poll-no-final-chance-timer": (["C08"], ["poll.after_local_close"],
+        sub("src/stream_dispatch.rs", "            if self.state.is_local_fin_or_later() {\n                const SHUTDOWN_FINAL_CHANCE_DELAY", "            if self.state.is_local_fin_or_later() && self.user_tx_segments.is_empty() {\n                const SHUTDOWN_FINAL_CHANCE_DELAY")),
 }
 
 HARMLESS = {
@@ -241,6 +251,24 @@ HARMLESS = {
                     }
 
                     // Restart the timer.""")),
+    "sockd-reorder-independent-lets": (["C12", "C13"],
+        sub("src/socket.rs", """        let args = StreamArgs::new_incoming(self.env.random_u16().into(), &syn.header)
+            .with_parent_span(accept.created_span.clone());
+        let (tx, rx) = unbounded_channel();
+""", """        let (tx, rx) = unbounded_channel();
+        let args = StreamArgs::new_incoming(self.env.random_u16().into(), &syn.header)
+            .with_parent_span(accept.created_span.clone());
+""")),
+    "sockd-cleanup-early-return-style": (["C13"],
+        sub("src/socket.rs", """                MatchSynWithAccept::Matched => continue,
+                MatchSynWithAccept::SynInvalid(sender) => {
+                    self.accept_queue.next_available_acceptor = Some(sender);
+                }""", """                MatchSynWithAccept::SynInvalid(sender) => {
+                    self.accept_queue.next_available_acceptor = Some(sender);
+                }
+                MatchSynWithAccept::Matched => continue,""")),
+    "poll-final-chance-extra-trace": (["C08"],
+        sub("src/stream_dispatch.rs", "            if self.state.is_local_fin_or_later() {\n                const SHUTDOWN_FINAL_CHANCE_DELAY", "            if self.state.is_local_fin_or_later() {\n                trace!(\"arming the final-chance timer\");\n                const SHUTDOWN_FINAL_CHANCE_DELAY")),
 }
 
 
